@@ -69,22 +69,29 @@ def needs_nonempty(r: R, qual: str):
     return out
 
 
-def _same_emptiness(fi, name: str):
+def _same_emptiness(fi, name: str, at=None):
     """the names a sequence is derived from by steps that keep it non-empty: a copy into another container type, the duplicate
     filter (it keeps the first of every group) — through local names with one definition"""
     keep = {"tuple", "list", "sorted", "set", "frozenset", "Intersection.filter_pairs", "heavy.totuple", "totuple"}
-    out, work = {name}, [name]
+    from .extra import reaching_assign
+
+    out, work = {name}, [(name, at)]
     while work:
-        nm = work.pop()
-        ds = [a.value for a in ast.walk(fi.node) if isinstance(a, ast.Assign) and len(a.targets) == 1 and isinstance(a.targets[0], ast.Name) and a.targets[0].id == nm]
+        nm, where = work.pop()
+        ds = [a for a in ast.walk(fi.node) if isinstance(a, ast.Assign) and len(a.targets) == 1 and isinstance(a.targets[0], ast.Name) and a.targets[0].id == nm]
         if len(ds) != 1:
-            continue
-        v = ds[0]
+            # a name that is rebound step by step (`c = filter(c0); c = min_distance(c)`): the definition that reaches `where`
+            d = reaching_assign(fi.node, where, nm) if where is not None else None
+            if d is None or len(d.targets) != 1 or not isinstance(d.targets[0], ast.Name):
+                continue
+            ds = [d]
+        where = ds[0]
+        v = ds[0].value
         while isinstance(v, ast.Call) and seg(v.func) in keep and v.args:
             v = v.args[0]
         if isinstance(v, ast.Name) and v.id not in out:
             out.add(v.id)
-            work.append(v.id)
+            work.append((v.id, where))
     return out
 
 
@@ -182,7 +189,7 @@ def run(m, chk):
                     if arg is None:
                         continue
                     sites += 1
-                    ok = isinstance(arg, ast.Name) and any(nonempty_guard(ctx, nm, cr.cfgnode) for nm in _same_emptiness(ctx.fi, arg.id))
+                    ok = isinstance(arg, ast.Name) and any(nonempty_guard(ctx, nm, cr.cfgnode) for nm in _same_emptiness(ctx.fi, arg.id, at=ctx.cfg.nodes[cr.cfgnode].ast))
                     chk.ob("PRECOND", f"{q}: `{seg(call, 50)}` dominated by a non-emptiness guard of `{seg(arg, 20)}`", ok, loc=r.loc(ctx, call),
                            detail="" if ok else f"{q}: `{seg(call, 60)}` can be reached with an empty `{seg(arg, 20)}` ({PMD} takes np.min over it ⇒ ValueError): two curves that do not meet must give the empty tuple (the sibling call site has the guard `if len(pairs) == 0: return tuple()`)",
                            func=q, construct="pairs_min_distance without non-emptiness guard")
